@@ -336,6 +336,19 @@ def r2_msg_type(ctx, F, m, madt, adt):
         ctx.missing('C20.R2', 'Message::msg_type: match over the 7 variants')
 
 
+def validator_names(F):
+    """FrameHeader::validate, and the private function validate hands its header to (`Ok(self.check()?)`) for code that asks
+    that one directly"""
+    v = F.body('protocol::FrameHeader::validate')
+    vnames = {'protocol::FrameHeader::validate'}
+    if v is not None:
+        for blk in v.blocks:
+            t_ = blk['term']
+            if t_.get('inlined') and any(o.kind == 'param' and o.key == 1 for a in t_.get('inlined_args', [])[:1] if a['k'] != 'const' for o in flow_of(v).origins(a)):
+                vnames.add(t_['inlined'])
+    return sorted(vnames)
+
+
 # ---------------------------------------------------------------- R3
 def r3(ctx, F):
     v = F.body('protocol::FrameHeader::validate')
@@ -345,13 +358,7 @@ def r3(ctx, F):
         ctx.missing('C20.R3', 'FrameHeader::validate/decode/new')
     dfl = flow_of(d)
     oks = ok_assign_blocks(d, 'Ok')
-    # validate, or the private function validate hands its header to (`Ok(self.check()?)`) when decode asks that one directly
-    vnames = {'protocol::FrameHeader::validate'}
-    for blk in v.blocks:
-        t_ = blk['term']
-        if t_.get('inlined') and any(o.kind == 'param' and o.key == 1 for a in t_.get('inlined_args', [])[:1] if a['k'] != 'const' for o in flow_of(v).origins(a)):
-            vnames.add(t_['inlined'])
-    vals = dfl.sites_of(*sorted(vnames))
+    vals = dfl.sites_of(*validator_names(F))
     good = bool(oks) and bool(vals) and all(any(dfl.guarded_by(ob, vb, 'Ok') for vb, _ in vals) for ob in oks)
     # the validated object is the returned one
     if good:
@@ -514,6 +521,20 @@ def r5(ctx, F):
     rfl = flow_of(rf)
     oks = [bb for bb, kind, data in ret_defs(rf) if kind == 'call' and callee(data) == 'protocol::FrameHeader::decode']
     other_ok = ok_assign_blocks(rf, 'Ok')
+    if other_ok:
+        # Ok(header) built in read_from itself is as good when it sits behind validate's Ok edge on that very header
+        vs_ = rfl.sites_of(*validator_names(F))
+        still = []
+        for ob in other_ok:
+            ro = set()
+            for st in rf.blocks[ob]['stmts']:
+                if st['rv']['k'] == 'agg' and st['rv'].get('vname') == 'Ok' and st['rv']['ops']:
+                    ro |= {(o.kind, str(o.key), o.bb) for o in rfl.origins(st['rv']['ops'][0]) if o.kind != 'comb'}
+            if not any(rfl.guarded_by(ob, vb, 'Ok') and ro and ro <= {(o.kind, str(o.key), o.bb) for o in rfl.origins(vt['args'][0]) if o.kind != 'comb'} for vb, vt in vs_ if vt['args']):
+                still.append(ob)
+        if not still and vs_:
+            oks = oks or other_ok
+        other_ok = still
     ctx.check(bool(oks) and not other_ok, 'C20.R5', 'read_from:via-decode', 'read_from returns decode(&buf) (validated)', 'FrameHeader::read_from can return a header without going through decode/validate', loc(rf, rf.lo))
 
 
